@@ -34,9 +34,9 @@ claimed = {
    technique="contract-based deductive verification (own VC generator over go/ssa; floats as SMT FloatingPoint; z3/cvc5) + bounded stand-in for the rounding claims",
    design="5/C10"),
  "C11": dict(
-   text="Deductively proved so far: labeledMerge (the pooled sample is sorted, NaN-free, labelled 1/2; safety and termination of its three loops).  The decisive parts — the rank-sum loop, the selection of the tail for each alternative, UDist.p (dynamic programming) and makeUmemo (memoised counting recurrence with its K=2 base case), whose correctness is a combinatorial theorem — are outside deductive reach in this build and are covered by a bounded stand-in: exhaustive comparison with brute-force enumeration of label assignments for every pair of multisets over 4 values with n1+n2 <= 8 (thorough: 10), PMF/CDF consistency, mathChoose against big integers for n <= 62, the normal approximation evaluated independently, error cases.  It exposed two defects that were repaired (K=2 base case; 'greater' tail with ties) and one recorded as a known finding (two-sided p with ties, pinned by an existing test).",
-   note="Mostly bounded evidence; the proof obligations concern the merge step only.  The symmetry of the untied null distribution is a textbook fact used implicitly by the code.",
-   technique="bounded exhaustive enumeration against a brute-force oracle (stand-in), plus contract-based deductive verification of labeledMerge",
+   text="Deductively proved for all samples (NaN-free, up to 10^6 values each): MannWhitneyUTest's method and tail selection — it reports empty samples and all-equal samples as the documented errors and otherwise returns, for the tie vector T it has computed (one entry per group of equal pooled values; ties exactly when T has fewer entries than there are values), the sizes, the alternative, and a p-value that is: with the exact method (sizes up to the configured limits, separately with and without ties) the lower tail F(U) for `less`, the upper tail 1 - F(U - 1/2) for `greater`, 1 when U is its own mirror image and twice the smaller tail for untied two-sided tests; otherwise the continuity- and tie-corrected normal approximation for each alternative, as identities between IEEE-754 terms (710 paths, about 14 500 obligations); labeledMerge (sorted, NaN-free, labelled pooled sample).  That the rank-sum loop computes U, and the values of the exact distribution F (UDist.p: dynamic programming; makeUmemo: memoised counting recurrence with its K=2 base case — a combinatorial theorem) are outside deductive reach and are covered by a bounded stand-in: exhaustive comparison with brute-force enumeration of label assignments for every pair of multisets over 4 values with n1+n2 <= 8 (thorough: 10), PMF/CDF consistency, mathChoose against big integers, the normal approximation evaluated independently, error cases.  It exposed two defects that were repaired (K=2 base case; 'greater' tail with ties) and one recorded as a known finding (two-sided p with ties, pinned by an existing test; the contract leaves exactly that case open).",
+   note="Trusted: UDist.CDF and NormalDist.CDF are named by ghost functions (their values are bounded evidence only); sort.Float64s sorts and keeps a NaN-free slice NaN-free; tieCorrection, mathSign, math.Sqrt/Min are functions of their arguments; integer products are assumed not to overflow in tieCorrection; the post is existential in the tie vector (witness: the function's own T).",
+   technique="contract-based deductive verification of the method/tail selection (own VC generator over go/ssa; floats as SMT FloatingPoint; existential post with a witness hint; z3/cvc5) + bounded exhaustive enumeration against a brute-force oracle for the distribution itself",
    design="5/C11"),
  "C01": dict(
    text="The reader half of the round trip is under deductive contracts shared with C02/C04 (key lines: parseKeyValueLine against the rune-level key rule; the configuration index; parseBenchmarkLine keeps the written value/unit pair whenever it rescales).  The writer's diffing of configurations (writeResult/writeFileConfig: map of struct values, overlapping copy, fmt.Fprintf into a buffer) is NOT under contract in this build; the round-trip statement itself is checked by a bounded stand-in: exhaustive 2-step and sampled 3-step configuration histories over {absent, file, internal} (which exposed the missing deletion on a file-to-internal transition — fixed), all special float values in plain and rescaled units, and seeded random streams with API edits.",
